@@ -183,7 +183,13 @@ Definition drop_state_if_last (unwinding : bool) (gl : glob) (x : inst) : res * 
   if i_alive x || (0 <? i_clones x)%nat then (ROk, gl, x)
   else
     let '(p, gl', x') := run_d delivery_state_drop_skel gl x in
-    if p then ((if unwinding then RAbort else RPanic), gl', x')
+    if p then
+      (* the destructor panicked before unregistering: the registrations leak, and with them the
+         write end that every registered action holds (an instance that recorded nothing has no
+         such action: its write end went with the handle's own reference) *)
+      ((if unwinding then RAbort else RPanic), gl',
+       if existsb (fun id => existsb (fun e => Nat.eqb (fst e) id) (reg gl')) (map snd (i_ids x'))
+       then x' else set_wr_closed x')
     else (ROk, gl', set_wr_closed x').
 
 Definition drop_instance (unwinding : bool) (gl : glob) (x : inst) : res * glob * inst :=
